@@ -231,7 +231,7 @@ func (w *world) stopServer() {
 	synctest.Wait()
 	done := make(chan struct{})
 	srv := w.srv
-	go func() { _ = srv.VerifShutdown(); close(done) }()
+	go func() { srv.VerifStop(); close(done) }()
 	deadline := time.Now().Add(90 * time.Second)
 	for {
 		synctest.Wait()
